@@ -314,7 +314,8 @@ theorem writebackSub_spec {d : Disk} {f : Array Nat} (g : Geo d) (w : WOk d f) {
     ∃ r' c, writebackDirectoryEntry (some c1) idx (dirOfBytes (chainData d cl)) e' d = (.ok (), { d with raw := r' }) ∧
       r'.units.size = d.raw.units.size ∧ r'.unitLen = d.raw.unitLen ∧ cl[idx / epcOf d.bpb]? = some c ∧
       (∀ u, u ∉ List.range' (d.bpb.firstClusterSec c) d.bpb.spc → r'.units[u]? = d.raw.units[u]?) ∧
-      dirOfBytes (chainData { d with raw := r' } cl) = (dirOfBytes (chainData d cl)).set idx e' := by
+      dirOfBytes (chainData { d with raw := r' } cl) = (dirOfBytes (chainData d cl)).set idx e' ∧
+      Geo { d with raw := r' } := by
   have hcl := isChain_inRng h
   obtain ⟨hA, hlen, hflat, hblk⟩ := chainDir_spec g hcl
   have hspc : 0 < d.bpb.spc := Nat.pos_of_ne_zero g.spc
@@ -349,7 +350,40 @@ theorem writebackSub_spec {d : Disk} {f : Array Nat} (g : Geo d) (w : WOk d f) {
     unfold quantize
     rw [if_pos hdlen]
   rw [hq] at hdat
-  refine ⟨r', c, ?_, hsz, hul, hc, hfr, ?_⟩
+  have hgeo : Geo ({ d with raw := r' } : Disk) := by
+    obtain ⟨s0, hs0, hb0⟩ := g.boot
+    have hlow : ∀ u, u < d.bpb.firstDataSec → r'.units[u]? = d.raw.units[u]? := by
+      intro u hu
+      apply hfr
+      rw [List.mem_range'_1]
+      unfold Bpb.firstClusterSec
+      omega
+    refine { boot := ⟨s0, ?_, hb0⟩, ulen := by rw [← g.ulen]; exact hul, usz := ?_, bps := g.bps, spc := g.spc, nfat := g.nfat,
+             fat16 := g.fat16, spt := g.spt, heads := g.heads, typ := g.typ, ftyp := g.ftyp, rsvd := g.rsvd,
+             fits := by show _ ∧ d.bpb.totSec ≤ r'.units.size; rw [hsz]; exact g.fits,
+             chs := by show ∀ s, s < d.bpb.totSec → s / d.bpb.spt < r'.units.size / d.bpb.spt; rw [hsz]; exact g.chs }
+    · show r'.units[0]? = some s0
+      rw [hlow 0 (by have := g.rsvd; unfold Bpb.firstDataSec; omega)]; exact hs0
+    · intro i hi
+      have hi' : i < d.raw.units.size := by rw [← hsz]; exact hi
+      have hget : r'.units[i]? = some (r'.units[i]) := Array.getElem?_eq_getElem hi
+      show (r'.units[i]).length = 512
+      by_cases hm : i ∈ List.range' (d.bpb.firstClusterSec c) d.bpb.spc
+      · rw [List.mem_range'_1] at hm
+        have := hdat (i - d.bpb.firstClusterSec c) (by omega)
+        have e : d.bpb.firstClusterSec c + (i - d.bpb.firstClusterSec c) = i := by omega
+        rw [e, hget] at this
+        injection this with this
+        rw [this]
+        simp only [List.length_take, List.length_drop, hdlen]
+        have : (i - d.bpb.firstClusterSec c + 1) * 512 ≤ d.bpb.spc * 512 := Nat.mul_le_mul_right _ (by omega)
+        rw [Nat.add_mul] at this
+        omega
+      · have := hfr i hm
+        rw [hget, Array.getElem?_eq_getElem hi'] at this
+        injection this with this
+        rw [this]; exact g.usz i hi'
+  refine ⟨r', c, ?_, hsz, hul, hc, hfr, ?_, hgeo⟩
   · -- the run
     have hset : dirSet (dirOfBytes (chainData d cl)) idx e' = .ok dir' := by simp [dirSet, hidx, dir']
     have hepcv : d.bpb.blockSize / entrySize = epcOf d.bpb := by
